@@ -4,6 +4,7 @@ import (
 	"encoding/json"
 	"flag"
 	"fmt"
+	"go/types"
 	"os"
 	"os/exec"
 	"path/filepath"
@@ -12,6 +13,8 @@ import (
 	"strings"
 	"sync"
 	"time"
+
+	"golang.org/x/tools/go/ssa"
 )
 
 type knownFinding struct {
@@ -107,6 +110,11 @@ func contractPackages(prop string) ([]string, error) {
 				if p == prop {
 					has = true
 				}
+			}
+		}
+		for _, cs := range sp.Census {
+			if hasProp(cs.Props, prop) {
+				has = true
 			}
 		}
 		if has {
@@ -323,6 +331,59 @@ func (cr *checkRun) generateAndSolve() {
 				if k.Obligation == o.Name && k.Status != "fixed" {
 					o.KnownFailing = true
 				}
+			}
+			cr.lemmaObls = append(cr.lemmaObls, o)
+			cr.lemmaW[o] = w
+		}
+	}
+	// map-range census: in a package that declares one, a function that ranges over a map is either proved
+	// independent of the iteration order (opt maprange deterministic) or listed as unproved
+	for _, cs := range specs.Census {
+		if !hasProp(cs.Props, prop) {
+			continue
+		}
+		sp := l.SPkgs[cs.Pkg]
+		if sp == nil {
+			continue
+		}
+		fns := allFunctions(l, sp)
+		var names []string
+		for n := range fns {
+			names = append(names, n)
+		}
+		sort.Strings(names)
+		for _, n := range names {
+			nr := 0
+			for _, b := range fns[n].Blocks {
+				for _, ins := range b.Instrs {
+					if rg, ok := ins.(*ssa.Range); ok {
+						if _, isMap := rg.X.Type().Underlying().(*types.Map); isMap {
+							nr++
+						}
+					}
+				}
+			}
+			if nr == 0 {
+				continue
+			}
+			proved := false
+			for _, ct := range specs.Contracts {
+				if ct.Kind == "func" && ct.Pkg == cs.Pkg && ct.Name == n && ct.Opts["maprange"] == "deterministic" {
+					proved = true
+				}
+			}
+			w := newWorld(l, specs)
+			w.curFn = shortPkg(cs.Pkg) + "." + n
+			o := &Obligation{Name: w.curFn + "#maprange.census", Func: w.curFn, Label: "maprange.census", Kind: "census", Star: true, Props: cs.Props, Expect: "unsat", Goal: tTrue}
+			o.Pos = cs.File
+			switch {
+			case proved:
+				o.Result = &SolverResult{Status: "unsat", Solver: "census:proved-by-contract"}
+			case cs.Unproved[n] >= nr:
+				o.Result = &SolverResult{Status: "unsat", Solver: "census:listed-unproved"}
+				w.assumption(fmt.Sprintf("%s ranges over a map (%d loop(s)) and is not proved independent of the iteration order (listed in the census)", w.curFn, nr))
+			default:
+				o.Result = &SolverResult{Status: "undecided", Solver: "census", Output: fmt.Sprintf("%s has %d range(s) over a map; the census of package %s lists %d and the function has no 'opt maprange deterministic' contract: a range over a map was added without a proof that the output does not depend on the iteration order", n, nr, cs.Pkg, cs.Unproved[n])}
 			}
 			cr.lemmaObls = append(cr.lemmaObls, o)
 			cr.lemmaW[o] = w
